@@ -1,5 +1,6 @@
 import IceProofs.AgentC03Inbound
 import Lean
+import IceProofs.AgentAuto
 /-!
 # C01 liveness — the timer fields (`nextTick`, `checkingTimeout`, `checkingStart`, `lastSeen`) are written by the
 tick closure only: inbound STUN never touches them.
@@ -25,11 +26,11 @@ open IceModel.AgentCore
 @[simp] theorem tf_mk (cfg tieBreaker controlling started closed connState localUfrag localPwd remoteUfrag remotePwd
     locals remotes checklist nextPairID nextUid nextTid tag pending selected selStart nominatedPair lastNomination answeredNomination
     lastSeen checkingStart checkingTimeout forcePending nextTick caches rx connBytesSent connBytesRecv
-    onConnectedFired generation nomIssued) :
+    onConnectedFired generation nomIssued lastRenomTime nomCounter) :
     (Agent.mk cfg tieBreaker controlling started closed connState localUfrag localPwd remoteUfrag remotePwd
     locals remotes checklist nextPairID nextUid nextTid tag pending selected selStart nominatedPair lastNomination answeredNomination
     lastSeen checkingStart checkingTimeout forcePending nextTick caches rx connBytesSent connBytesRecv
-    onConnectedFired generation nomIssued).tf = ⟨nextTick, checkingTimeout, checkingStart, lastSeen⟩ := rfl
+    onConnectedFired generation nomIssued lastRenomTime nomCounter).tf = ⟨nextTick, checkingTimeout, checkingStart, lastSeen⟩ := rfl
 
 @[simp] theorem tf_eta (y : Agent) : TF.mk y.nextTick y.checkingTimeout y.checkingStart y.lastSeen = y.tf := rfl
 theorem tf_nextTick (a : Agent) : a.tf.nextTick = a.nextTick := rfl
@@ -265,6 +266,10 @@ theorem tf_handleInbound (a : Agent) (now : Nat) (l : Cand) (src : Nat) (m : Msg
   · split
     · split <;> simp
     · rfl
+
+@[simp] theorem tf_autoRenom (a : Agent) (now : Nat) : (a.autoRenom now).1.tf = a.tf :=
+  IceProofs.Auto.autoRenom_proj Agent.tf now (fun _ _ _ => rfl) (fun b l r u n => tf_sendRequest b now l r u n)
+    (fun _ _ => rfl) (fun _ _ => rfl) (fun _ _ => rfl) a
 
 @[simp] theorem tf_contactCandidates (a : Agent) (now : Nat) : (a.contactCandidates now).1.tf = a.tf := by
   unfold Agent.contactCandidates
